@@ -157,6 +157,7 @@ type vfbNet struct {
 	onEmit    func(from *vfbNode, to int, p *proto.PartialBeaconPacket, clk int64)
 	onSyncSend func(server *vfbNode, b *proto.BeaconPacket)
 	onHook     func(name string, n *vfbNode, args []any)
+	onOpen     func(n *vfbNode) // a node's store has just been (re)opened, before any Put
 	id         int
 	// adversary-served sync streams: addr -> function
 	syncServers map[string]func(ctx context.Context, req *proto.SyncRequest, out chan<- *proto.BeaconPacket)
@@ -306,6 +307,27 @@ func (nt *vfbNet) StartNode(n *vfbNode, mode string) error {
 		return err
 	}
 	n.tap = &vfbTapStore{Store: base, net: nt, node: n}
+	if nt.onOpen != nil {
+		nt.onOpen(n)
+	}
+	if nt.cfg.Backend == "memdb" && mode == "catchup" {
+		// what core does for the in-memory back-end before creating the handler (storeCurrentFromPeerNetwork):
+		// fetch the latest beacon from a peer, verify it, put it into the empty ring
+		var best *common.Beacon
+		for _, p := range nt.honestRunning() {
+			if p == n || p.handler == nil {
+				continue
+			}
+			if b, err := p.handler.chain.Last(context.Background()); err == nil && (best == nil || b.Round > best.Round) {
+				best = &common.Beacon{Round: b.Round, Signature: append([]byte(nil), b.Signature...), PreviousSig: append([]byte(nil), b.PreviousSig...)}
+			}
+		}
+		if best != nil && best.Round > 0 && nt.cfg.Scheme.VerifyBeacon(best, nt.group.PublicKey.Key()) == nil {
+			if err := n.tap.Put(context.Background(), best); err != nil {
+				return err
+			}
+		}
+	}
 	conf := &Config{Public: nt.group.Nodes[n.pos], Share: n.share, Group: nt.group, Clock: n.clk}
 	h, err := NewHandler(context.Background(), &vfbClient{net: nt, from: n}, n.tap, conf, n.logger, common.GetAppVersion())
 	if err != nil {
@@ -441,6 +463,8 @@ func vfbCaller() string {
 			return "sync"
 		case strings.HasSuffix(f.Function, ".NewHandler"):
 			return "genesis"
+		case strings.HasSuffix(f.Function, ".StartNode"):
+			return "bootstrap"
 		}
 		if !more {
 			break
